@@ -326,6 +326,23 @@ MUTANTS = [
      'edits': [(COMP, "            (\n                OpCode::GetGlobal,\n                OpCode::SetGlobal,\n                self.identifier_constant(&name),\n            )", "            (\n                OpCode::GetLocal,\n                OpCode::SetLocal,\n                self.identifier_constant(&name),\n            )")]},
     {'name': 'B5 more locals than a one-byte slot operand can name', 'prop': 'C04', 'expect': 'LOCALS_MAX',
      'edits': [('yarel/src/common.rs', "pub const LOCALS_MAX: usize = u8::MAX as usize + 1;", "pub const LOCALS_MAX: usize = u8::MAX as usize + 45;")]},
+    # ---- C11 ----------------------------------------------------------------------------------------
+    {'name': 'I1 slicing allocates an uninterned string', 'prop': 'C11', 'expect': 'I1 / ObjString::new has one caller',
+     'edits': [(VM, "        let new_string = self.new_gc_obj_string(&string.as_str()[begin..end]);\n        self.pop();",
+                "        let new_string = Root::new(ObjString::new(string.class, &string.as_str()[begin..end], 0)).as_gc();\n        self.pop();")]},
+    {'name': 'I2 short strings skip the intern look-up', 'prop': 'C11', 'expect': 'I2 / allocation dominated by string_store.get',
+     'edits': [(VM, "        let key = (hash, data);\n        if let Some(string) = self.string_store.get(key) {\n            return string.as_gc();\n        }",
+                "        let key = (hash, data);\n        if data.len() > 2 {\n            if let Some(string) = self.string_store.get(key) {\n                return string.as_gc();\n            }\n        }")]},
+    {'name': 'I2 stored hash differs from the look-up hash', 'prop': 'C11', 'expect': 'I2 / stored hash and look-up key',
+     'edits': [(VM, "            self.string_class.as_ref().expect(\"Expected Root.\").as_gc(),\n            data,\n            hash,\n        ));", "            self.string_class.as_ref().expect(\"Expected Root.\").as_gc(),\n            data,\n            data.len() as u64,\n        ));")]},
+    {'name': 'I3 in-place mutation of an interned string', 'prop': 'C11', 'expect': 'I3 / ',
+     'edits': [(OBJ, "    pub fn as_str(&self) -> &str {\n        self.string.as_str()\n    }", "    pub fn as_str(&self) -> &str {\n        self.string.as_str()\n    }\n\n    pub fn make_upper(&mut self) {\n        self.string = self.string.to_uppercase();\n    }")]},
+    {'name': 'I4 intern table compares hashes only', 'prop': 'C11', 'expect': 'I4 / find_index matches a filled slot only on equal hash and equal text',
+     'edits': [(VM, "                    if entry.hash == hash && entry.as_str() == string {", "                    if entry.hash == hash && (entry.as_str() == string || entry.len() > 64) {")]},
+    {'name': 'I4 load factor of one', 'prop': 'C11', 'expect': 'I4 / MAX_LOAD',
+     'edits': [(VM, "    const MAX_LOAD: f64 = 0.75;", "    const MAX_LOAD: f64 = 1.0;")]},
+    {'name': 'I4 table grows by half', 'prop': 'C11', 'expect': 'I4 / capacity doubles',
+     'edits': [(VM, "                self.adjust_capacity(self.entries.len() * 2);", "                self.adjust_capacity(self.entries.len() * 3 / 2);")]},
 ]
 
 BENIGN = [
